@@ -199,4 +199,23 @@ def types_line():
     }
 
 
-ALL = {f.__name__: f for f in (chain3, diamond, mount2, mount2p, uses2, parts, optpat, ctxmove, types_line)}
+def namemode():
+    """for name mode (results stored under the config's name): two configs of one pipeline whose names extend each other
+    (exp / exp_big), different values, one data directory"""
+    return {
+        'name': 'namemode',
+        'tasks': {
+            'A': {'params': [P('pa')], 'inputs': [], 'data': 'json'},
+            'B': {'params': [], 'inputs': [by_class('A')], 'data': 'numpy'},
+            'C': {'params': [], 'inputs': [by_class('B')], 'data': 'dir'},
+        },
+        'configs': {
+            'exp': {'medium': 'json', 'file': 'exp.json', 'tasks': ['A', 'B', 'C'], 'values': {'pa': 1}},
+            'exp_big': {'medium': 'json', 'file': 'exp_big.json', 'tasks': ['A', 'B', 'C'], 'values': {'pa': 2}},
+        },
+        'root': 'exp',
+        'variants': {'exp': [], 'exp_big': [[['root'], 'exp_big']]},
+    }
+
+
+ALL = {f.__name__: f for f in (namemode, chain3, diamond, mount2, mount2p, uses2, parts, optpat, ctxmove, types_line)}
